@@ -108,6 +108,125 @@ class C13(SeqProp):
         st["mode"] = mode_of(seq)
         return v
 
+    def parametrized_histories(self, tier, rng):
+        """random histories on a sequence that becomes parametrized at a random point:
+        the EOM typestate (per channel) and the inspection refusals must follow the
+        documented mode, tracked here from the calls that were accepted"""
+        from pulser import Register, Sequence
+        from pulser.devices import MockDevice
+
+        v = []
+        for k in range(40 if tier == "quick" else 400):
+            with warnings.catch_warnings():
+                warnings.simplefilter("ignore")
+                from harness import seqimpl
+
+                eomspec = dict(mod_bandwidth=40.0, custom_buffer_time=None, limiting_beam="RED", controlled_beams=["BLUE"],
+                               multiple_beam_control=True, max_limiting_amp=188.0, intermediate_detuning=4398.0)
+                chan = lambda i, kind, addr, e: dict(id=f"ch{i}", kind=kind, addressing=addr, clock_period=1, min_duration=1,  # noqa: E731
+                                                     max_duration=10**8, mod_bandwidth=8.0, custom_phase_jump_time=None, max_amp=None,
+                                                     max_abs_detuning=None, min_avg_amp=0, min_retarget_interval=0, fixed_retarget_t=0,
+                                                     max_targets=None, **({"eom": dict(e)} if e else {}))
+                dev = seqimpl.build_device(dict(channels=[chan(0, "Rydberg", "Global", eomspec), chan(1, "Rydberg", "Global", eomspec),
+                                                          chan(2, "Raman", "Local", None)], dmms=[], max_sequence_duration=None,
+                                                reusable=False, slm=False))
+                reg = Register.square(2, 5, prefix="q")
+                seq = Sequence(reg, dev)
+                seq.declare_channel("a", "ch0")
+                seq.declare_channel("b", "ch1")
+                seq.declare_channel("c", "ch2", initial_target="q0")
+                x = seq.declare_variable("x", dtype=float)
+                eom = {"a": False, "b": False, "c": False}
+                param = False
+                hist = []
+                n = rng.randint(4, 12)
+                when = rng.randrange(n)
+                for i in range(n):
+                    ch = rng.choice(["a", "a", "b", "b", "c"])
+                    kind = rng.choice(["enable", "disable", "add", "add_eom", "target", "delay", "estimate", "duration", "phase_ref"])
+                    use_var = (i == when) or (param and rng.random() < 0.3)
+                    amp = (1.0 + 0 * x) if use_var else 1.0
+                    dur = 100
+                    call = None
+                    refuse = None
+                    if kind == "enable":
+                        call = lambda: seq.enable_eom_mode(ch, amp, 0.0, 0.0)  # noqa: E731
+                        if ch == "c":
+                            refuse = "no-eom-config"
+                        elif eom[ch]:
+                            refuse = "in-eom-mode"
+                    elif kind == "disable":
+                        call = lambda: seq.disable_eom_mode(ch)  # noqa: E731
+                        use_var = False
+                        if not eom[ch]:
+                            refuse = "not-in-eom-mode"
+                    elif kind == "add":
+                        call = lambda: seq.add(Pulse.ConstantPulse(dur, amp, 0.0, 0.0), ch)  # noqa: E731
+                        if eom[ch]:
+                            refuse = "in-eom-mode"
+                    elif kind == "add_eom":
+                        call = lambda: seq.add_eom_pulse(ch, dur, (0.0 + 0 * x) if use_var else 0.0)  # noqa: E731
+                        if not eom[ch]:
+                            refuse = "not-in-eom-mode"
+                    elif kind == "target":
+                        call = lambda: seq.target("q1", ch)  # noqa: E731
+                        use_var = False
+                        if ch != "c":
+                            refuse = "global-channel"
+                        elif eom[ch]:
+                            refuse = "in-eom-mode"
+                    elif kind == "delay":
+                        call = lambda: seq.delay((100 + 0 * x) if use_var else 100, ch)  # noqa: E731
+                    elif kind == "estimate":
+                        call = lambda: seq.estimate_added_delay(Pulse.ConstantPulse(dur, 1.0, 0.0, 0.0), ch)  # noqa: E731
+                        use_var = False
+                        if param:
+                            refuse = "inspection-while-parametrized"
+                        elif eom[ch]:
+                            refuse = None  # not part of the documented table: not judged
+                            call = None
+                    elif kind == "duration":
+                        call = lambda: seq.get_duration()  # noqa: E731
+                        use_var = False
+                        if param:
+                            refuse = "inspection-while-parametrized"
+                    else:
+                        call = lambda: seq.current_phase_ref("q0", "digital")  # noqa: E731
+                        use_var = False
+                        if param:
+                            refuse = "inspection-while-parametrized"
+                    if call is None:
+                        continue
+                    hist.append((kind, ch, bool(use_var)))
+                    case = dict(scenario="parametrized-history", k=k, history=list(hist))
+                    try:
+                        call()
+                        ok = True
+                    except Exception as e:  # noqa: BLE001
+                        ok = False
+                        err = e
+                    if refuse and ok:
+                        v.append(Violation("accepted-in-wrong-mode:" + refuse + (":parametrized" if param else ""),
+                                           f"{kind} on {ch} accepted (mode: eom={eom}, parametrized={param})", case))
+                    if not refuse and not ok:
+                        v.append(Violation("refused-in-right-mode:" + kind + (":parametrized" if param else ""),
+                                           f"{kind} on {ch} refused with {err!r} (mode: eom={eom}, parametrized={param})"[:300], case))
+                    if ok:
+                        if kind == "enable":
+                            eom[ch] = True
+                        elif kind == "disable":
+                            eom[ch] = False
+                        if use_var and kind in ("enable", "add", "add_eom", "delay"):
+                            param = True
+                    if param and not seq.is_parametrized():
+                        v.append(Violation("variable-used-but-not-parametrized", f"after {kind} on {ch}", case))
+                    # (a refused call that carried a variable also flips the sequence to
+                    # parametrized: C09's known mutation-before-validation, not judged here)
+                    param = seq.is_parametrized()
+                    if len(v) > 20:
+                        return v
+        return v
+
     def replay(self, payload):
         case = payload.get("case") or {}
         if isinstance(case, dict) and "scenario" in case:
@@ -182,6 +301,7 @@ class C13(SeqProp):
                         v.append(Violation("built-still-parametrized", "", case))
                 except Exception as e:  # noqa: BLE001
                     v.append(Violation("inspection-refused-after-build", repr(e), case))
+        v += self.parametrized_histories(tier, rng)
         # declared-once clauses while the sequence is parametrized (physical device)
         from pulser.devices import DigitalAnalogDevice
 
